@@ -363,13 +363,13 @@ def bits_equal(a, b):
 class Session:
     """One program being executed: registers, buffered events."""
 
-    def __init__(self, rec, tid, regs, cfg=None, grp=None):
+    def __init__(self, rec, tid, regs, cfg=None, grp=None, init_args=None):
         self.rec, self.tid, self.regs, self.cfg = rec, tid, regs, cfg or {}
         self.buf = []
         self.seq = 0
         self.dead = False
         try:
-            self._emit("init", {"x": 0}, [], sorted(regs), "method", "ok", "")
+            self._emit("init", init_args or {"x": 0}, [], sorted(regs), "method", "ok", "")
         except OutOfRange:
             self.dead = True
 
@@ -457,7 +457,14 @@ class Recorder:
             _ac._fuseinfos.clear()
         try:
             regs = {name: descriptors.build(desc) for name, desc in prog["inputs"].items()}
-            ses = Session(self, prog["tid"], regs, cfg)
+            init_args = None
+            if prog.get("model_descs"):
+                # programs exported by TLC from Machine.tla: log the descriptors so that the spec can
+                # rebuild the very arrays the model started from
+                init_args = {"descs": {k: {"sym": d["sym"], "kind": d["kind"], "ix": d["ix"], "charge": d["charge"],
+                                           "drop": d["drop"], "phases": d.get("phases", []), "start": d["fill"]["start"],
+                                           "oddpos": d.get("oddpos", 1)} for k, d in prog["inputs"].items()}}
+            ses = Session(self, prog["tid"], regs, cfg, init_args=init_args)
             for st in prog["steps"]:
                 ses.do(st)
             return ses.close()
